@@ -221,6 +221,37 @@ static void sub_trunc(const args_t *a, long c, rng_t *r)
 	}
 }
 
+/* length_packed with bounds of 2^32 and more: the bound is a size_t; a really mapped (lazily, zero) region of 2^33 + 64 KiB so that every
+ * bound passed is a true lower bound of what is readable */
+#include <sys/mman.h>
+static void sub_hugebound(const args_t *a, long c, rng_t *r)
+{
+	(void)a; (void)c;
+	const uint64_t REGION = (1ULL << 33) + 65536;
+	uint8_t *buf = mmap(NULL, REGION, PROT_READ | PROT_WRITE, MAP_PRIVATE | MAP_ANONYMOUS | MAP_NORESERVE, -1, 0);
+	if (buf == MAP_FAILED) { inconclusive("cannot map 8 GiB of address space"); return; }
+	static const uint64_t BASE[] = {1ULL << 32, 1ULL << 33, (1ULL << 32) + 4096, (1ULL << 32) * 2 - 16, (1ULL << 31), (1ULL << 32) - 13};
+	for (int rep = 0; rep < 200; rep++) {
+		/* a varint of 1..10 bytes at the start of the region (and, for the unterminated case, 12 continuation bytes followed by zeros = terminator at 12) */
+		unsigned L = 1 + rndn(r, 10);
+		for (unsigned i = 0; i < 16; i++) buf[i] = 0;
+		for (unsigned i = 0; i + 1 < L; i++) buf[i] = 0x80 | (uint8_t)rnd64(r);
+		buf[L - 1] = (uint8_t)(rnd64(r) & 0x7f);
+		for (size_t bi = 0; bi < sizeof BASE / sizeof BASE[0]; bi++)
+			for (uint64_t k = 0; k <= 12; k++) {
+				uint64_t bound = BASE[bi] + k;
+				unsigned got = mtbl_varint_length_packed(buf, (size_t)bound);
+				unsigned want = L <= bound ? L : 0;
+				if (got != want) { viol("C16/length_packed-huge-bound", "length_packed(%u-byte varint, bound %" PRIu64 ") = %u, want %u", L, bound, got, want); goto out; }
+				STAT("hugebound.calls");
+				if (bound >= (1ULL << 32)) STAT("hugebound.calls_bound_ge_2^32");
+			}
+	}
+out:
+	munmap(buf, REGION);
+	case_hash(0x4857);
+}
+
 int main(int argc, char **argv)
 {
 	args_t a;
@@ -231,6 +262,7 @@ int main(int argc, char **argv)
 	else if (!strcmp(a.sub, "v64")) f = sub_v64;
 	else if (!strcmp(a.sub, "fixed")) f = sub_fixed;
 	else if (!strcmp(a.sub, "trunc")) f = sub_trunc;
+	else if (!strcmp(a.sub, "hugebound")) f = sub_hugebound;
 	else { fprintf(stderr, "unknown subcommand\n"); return 98; }
 	int rc = run_cases(&a, f);
 	(void)n_checked;
